@@ -178,30 +178,26 @@ func (pe *PolicyEngine) allowedXgressConnectionByNetpols(src, dst k8s.Peer, isIn
 		return false, false, nil // result will be determined later by banp / system-default
 	}
 
-	// iterate relevant network policies (that capture the required pod)
+	// iterate relevant network policies (that capture the required pod);
+	// the policies come in no particular order, so all of them are consulted: an error of any of them is returned
+	// whether or not a policy consulted before it allows the connection
+	allowed := false
 	for _, policy := range netpols {
 		// if isIngress: check for ingress rules that capture src within 'from'
 		// if not isIngress: check for egress rules that capture dst within 'to'
+		var policyRes bool
 		if isIngress {
-			res, err := policy.IngressAllowedConn(src, protocol, port, dst)
-			if err != nil {
-				return false, false, err
-			}
-			if res {
-				return true, true, nil
-			}
+			policyRes, err = policy.IngressAllowedConn(src, protocol, port, dst)
 		} else {
-			res, err := policy.EgressAllowedConn(dst, protocol, port)
-			if err != nil {
-				return false, false, err
-			}
-			if res {
-				return true, true, nil
-			}
+			policyRes, err = policy.EgressAllowedConn(dst, protocol, port)
 		}
+		if err != nil {
+			return false, false, err
+		}
+		allowed = allowed || policyRes
 	}
-	// the src/dst was captured by policies but the given connection is not allowed (so it is implicitly denied)
-	return false, true, nil
+	// the src/dst was captured by policies; if the given connection is not allowed by any of them, it is implicitly denied
+	return allowed, true, nil
 }
 
 // allowedXgressByBaselineAdminNetpolOrByDefault returns if the given input connection is allowed on the given ingress/egress direction
